@@ -11,7 +11,7 @@
     Observations are made through [parse_chunk]: what a client sees of each
     message taken on its own.  Vocabulary: Model/ChunkSpec.v. *)
 From RsM Require Import Lib.MachInt Model.Chunk Model.ChunkSpec
-  Proofs.ChunkFacts Proofs.ChunkEvents Proofs.ChunkTheorems Proofs.ChunkFront.
+  Proofs.ChunkFacts Proofs.ChunkEvents Proofs.ChunkTheorems Proofs.ChunkFront Proofs.ChunkRounds.
 Open Scope N_scope.
 
 (** Every entry of the work list travels exactly once, in order, in one of its
@@ -104,7 +104,7 @@ Print Assumptions C14_terminates.
     empty message -- the answer is complete. *)
 Theorem C14_completes_when_items_fit :
   forall (n : nat) (c : cfg) (its : list item) (stats : list atom) (evs : list ev),
-  cfg_ok c = true -> ev_sorted evs ->
+  cfg_ok c = true -> ev_sorted evs -> accept c = None ->
   (length evs < n)%nat -> all_fit c its stats evs = true -> fst (respond n c its stats evs) = ODone.
 Proof. exact completes. Qed.
 Print Assumptions C14_completes_when_items_fit.
@@ -117,6 +117,70 @@ Theorem C14_status_only_when_oversized :
   forallb (item_fits c) its = false \/ forallb (fun e => ev_size e <=? fresh_room c) evs = false.
 Proof. exact status_means_oversized. Qed.
 Print Assumptions C14_status_only_when_oversized.
+
+(** * A peer that refuses a chunk, or stops answering
+
+    [accept c = Some k]: the peer answers k chunks with Success; its answer to the next one is another
+    status, or never comes.  The responder stops there ([OAbort]). *)
+
+(** An aborted answer never claims to be complete: every message that went out announces more. *)
+Theorem C14_aborted_never_claims_completeness :
+  forall (n : nat) (c : cfg) (its : list item) (stats : list atom) (evs : list ev),
+  cfg_ok c = true -> ev_sorted evs ->
+  forall chunks : list (list token),
+  respond n c its stats evs = (OAbort, chunks) ->
+  exists vs, map parse_chunk chunks = map Some vs /\
+             forallb (fun v => v_more v && negb (v_supp v)) vs = true.
+Proof. exact aborted_never_complete. Qed.
+Print Assumptions C14_aborted_never_claims_completeness.
+
+(** ... and only a peer that can refuse makes the responder stop that way. *)
+Theorem C14_accepting_peer_never_aborts :
+  forall (n : nat) (c : cfg) (its : list item) (stats : list atom) (evs : list ev),
+  cfg_ok c = true -> ev_sorted evs ->
+  accept c = None -> fst (respond n c its stats evs) <> OAbort.
+Proof. exact accepting_never_aborts. Qed.
+Print Assumptions C14_accepting_peer_never_aborts.
+
+(** The subscription after an aborted report ([report_round] = one turn of [process_subscriptions]):
+    silence leaves it exactly as it was (nothing is marked as delivered), a refusal removes it; in
+    both cases no message of the aborted answer lacks MoreChunkedMessages. *)
+Theorem C14_aborted_round :
+  forall (n : nat) (c : cfg) (sb : sub) (hi : N) (stats : list atom) (evs : list ev),
+  cfg_ok c = true -> ev_sorted evs ->
+  forall (how : silence) (x : option sub) (ch : list (list token)),
+  report_round n c how sb hi stats evs = (x, OAbort, ch) ->
+  x = match how with Silent => Some sb | Refuses => None end /\
+  exists vs, map parse_chunk ch = map Some vs /\
+             forallb (fun v => v_more v && negb (v_supp v)) vs = true.
+Proof.
+  intros n c sb hi stats evs Hc Hs how x ch E. split.
+  - destruct how; [exact (round_refused_abort n c sb hi stats evs x ch E) | exact (round_silent_abort n c sb hi stats evs x ch E)].
+  - exact (round_abort_never_complete n c sb hi stats evs Hc Hs how x ch E).
+Qed.
+Print Assumptions C14_aborted_round.
+
+(** The next interaction starts clean: whatever the subscription went through before, a round with a
+    peer that answers delivers everything pending -- the changed attributes and all selected events
+    above the subscription's watermark -- exactly once and in order, ends properly, and advances the
+    subscription.  (For a read there is no state between interactions at all: every [respond] starts
+    from [init_st].) *)
+Theorem C14_next_round_starts_clean :
+  forall (n : nat) (c : cfg) (sb : sub) (hi : N) (stats : list atom) (evs : list ev),
+  cfg_ok c = true -> ev_sorted evs ->
+  forall how : silence,
+  accept c = None -> has_attrs c = true -> has_events c = true ->
+  (length evs < n)%nat -> all_fit c (sb_pending sb) stats evs = true ->
+  nothing_to_report (with_window c (sb_seen sb) hi) (sb_pending sb) stats evs = false ->
+  exists ch vs gs,
+    report_round n c how sb hi stats evs = (Some (mkSub hi []), ODone, ch) /\
+    map parse_chunk ch = map Some vs /\
+    Forall2 sent_as (sb_pending sb) gs /\ all_attr_atoms vs = concat gs /\
+    all_event_atoms vs = stats ++ map ev_atom
+      (filter (fun e => (sb_seen sb <? ev_num e) && (ev_num e <=? hi) && ev_sel e) evs) /\
+    only_last_ends vs = true.
+Proof. exact round_complete. Qed.
+Print Assumptions C14_next_round_starts_clean.
 
 (** The executable property (the monitor that is run on the implementation's chunks)
     accepts every complete answer of the model ... *)
@@ -162,10 +226,21 @@ Proof.
 Qed.
 Print Assumptions C14_front_end_consistent.
 
+(** ... also for subscription reports (the changed attributes of the subscribed paths, in expansion order). *)
+Theorem C14_report_front_end_consistent :
+  forall (nd : node) (qs chs : list rpath),
+  forallb item_ok (report_items_of nd qs chs) = true /\
+  (forall it, In it (report_items_of nd qs chs) -> In it (items_of nd [] qs)).
+Proof.
+  intros nd qs chs. split; [apply report_items_ok|].
+  intros it H. unfold report_items_of in H. apply filter_In in H. tauto.
+Qed.
+Print Assumptions C14_report_front_end_consistent.
+
 (** * Non-vacuity: the hypotheses are satisfiable, the outcomes are inhabited *)
 
-Definition cfg_read : cfg := mkCfg TX_DEFAULT RESERVE_DEFAULT None true true true 0 18446744073709551615.
-Definition cfg_sub : cfg := mkCfg TX_DEFAULT RESERVE_DEFAULT (Some 1) false true true 0 18446744073709551615.
+Definition cfg_read : cfg := mkCfg TX_DEFAULT RESERVE_DEFAULT None true true true 0 18446744073709551615 None.
+Definition cfg_sub : cfg := mkCfg TX_DEFAULT RESERVE_DEFAULT (Some 1) false true true 0 18446744073709551615 None.
 
 Example C14_ex_cfg_ok : cfg_ok cfg_read = true /\ cfg_ok cfg_sub = true /\ fresh_room cfg_read = 1151 /\ fresh_room cfg_sub = 1148.
 Proof. vm_compute. repeat split. Qed.
@@ -189,6 +264,26 @@ Example C14_ex_oversized :
   all_fit cfg_read [IOne (AWhole (0,100,0) 1152)] [] [] = false /\
   respond 8 cfg_read [IOne (AWhole (0,100,0) 1152)] [] [] = (OStatus, []) /\
   fst (respond 8 cfg_read [IOne (AWhole (0,100,0) 1151)] [] []) = ODone.
+Proof. vm_compute. repeat split. Qed.
+
+(** a peer that accepts one chunk and refuses the second: the answer stops after two messages, both with More;
+    the same request with a peer that answers is complete in three *)
+Definition cfg_refuse1 : cfg := mkCfg TX_DEFAULT RESERVE_DEFAULT None true true true 0 18446744073709551615 (Some 1).
+Example C14_ex_abort :
+  let its := [IOne (AWhole (0,100,0) 33); IArr (0,100,1) 1837 23 [626; 626; 626] 22] in
+  let r := respond 8 cfg_refuse1 its [] [] in
+  fst r = OAbort /\ map tsum (snd r) = [692; 636] /\
+  firstn 2 (snd (respond 8 cfg_read its [] [])) = snd r.
+Proof. vm_compute. repeat split. Qed.
+
+(** a report with nothing to report sends nothing; a silent abort keeps the subscription, a refusal drops it *)
+Example C14_ex_rounds :
+  let sb := mkSub 2 [IArr (0,100,1) 1837 23 [626; 626; 626] 22] in
+  let evs := [mkEv 1 39 true; mkEv 2 730 true; mkEv 3 731 true] in
+  respond_report 8 (with_window cfg_sub 3 3) [] [] evs = (ODone, []) /\
+  fst (report_round 8 (with_window cfg_refuse1 0 0) Silent sb 3 [] evs) = (Some sb, OAbort) /\
+  fst (report_round 8 (with_window cfg_refuse1 0 0) Refuses sb 3 [] evs) = (None, OAbort) /\
+  fst (report_round 8 cfg_sub Silent sb 3 [] evs) = (Some (mkSub 3 []), ODone).
 Proof. vm_compute. repeat split. Qed.
 
 (** events are resumed by number across messages *)
